@@ -31,6 +31,8 @@ type Runner struct {
 	txRoot   PageID
 	txFreed  map[PageID]bool
 	txDirtyUnknown bool // flush state unknown after a failed Tx.Flush
+	txDataEnd PageID // data end marker when the transaction began
+	txOOM     bool   // an allocation failed in the running transaction
 	ver      uint32
 
 	Ops   []Op // executed operations (recorded)
@@ -44,6 +46,18 @@ type Runner struct {
 	OnCommitted func(st *State)
 	// optional hook called between two operations of a transaction
 	Between func()
+	// AsProp, if set, re-labels state/partition violations found by this runner
+	// (used when the runner verifies a recovered or derived file).
+	AsProp      string
+	AfterCreate func()
+}
+
+// fail records a violation, relabelled if AsProp is set.
+func (r *Runner) fail(prop, class, format string, args ...interface{}) {
+	if r.AsProp != "" {
+		prop = r.AsProp
+	}
+	r.E.Fail(prop, class, format, args...)
 }
 
 // CommitRec describes one commit attempt of the history.
@@ -233,6 +247,8 @@ func (r *Runner) apply(op Op) bool {
 		r.txFreed = map[PageID]bool{}
 		r.txRoot = r.Cur().Root
 		r.txDirtyUnknown = false
+		r.txOOM = false
+		r.txDataEnd = txfile.VerifAllocSnapshot(r.F).DataEnd
 		if got := tx.Root(); got != r.txRoot {
 			e.Fail("C03", "root-mismatch", "new write transaction sees root %d, expected %d", got, r.txRoot)
 		}
@@ -262,6 +278,7 @@ func (r *Runner) apply(op Op) bool {
 		}
 		if err != nil {
 			r.errOK(err, "Alloc")
+			r.txOOM = true
 			return true
 		}
 		if len(pages) != n {
@@ -559,6 +576,16 @@ func (r *Runner) checkAllocated(pages []*txfile.Page) {
 		if part.MetaFree[id] {
 			e.Fail("C04", "alloc-internal", "Alloc returned page %d which belongs to the meta area", id)
 		}
+		if p := r.txPages[id]; p != nil && p.isNew && p.freed {
+			e.Probe("immediate_recycle")
+		}
+		if part.DataFree[id] {
+			// (snapshot taken after the allocation: still listed => double hand-out)
+			e.Fail("C04", "alloc-still-free", "Alloc returned page %d which is still on the data free list", id)
+		}
+		if id < r.txDataEnd {
+			e.Probe("alloc_from_freelist")
+		}
 		r.txPages[id] = &pgState{id: id, h: h, isNew: true}
 		e.Obs("alloc %d", id)
 	}
@@ -643,7 +670,7 @@ func (r *Runner) VerifyAll(when string) {
 		return
 	}
 	if msg := VerifyState(tx, r.Cur()); msg != "" {
-		e.Fail("C03", "state-mismatch", "%s: %s", when, msg)
+		r.fail("C03", "state-mismatch", "%s: %s", when, msg)
 	}
 	if err := tx.Close(); err != nil {
 		e.Fail("C03", "unexpected-error", "closing read transaction failed: %v", err)
@@ -655,13 +682,13 @@ func (r *Runner) CheckPartition() {
 	e := r.E
 	p := TakePartition(r.F)
 	if msg := p.CheckDisjoint(r.Cur().Pages); msg != "" {
-		e.Fail("C04", "partition", "%s", msg)
+		r.fail("C04", "partition", "%s", msg)
 		return
 	}
 	e.Probe("partition_checked")
 	if r.CheckCover {
 		if msg := p.CheckCoverage(r.Cur().Pages); msg != "" {
-			e.Fail("C11", "coverage", "%s", msg)
+			r.fail("C11", "coverage", "%s", msg)
 		}
 	}
 }
@@ -670,7 +697,7 @@ func (r *Runner) CheckPartition() {
 func (r *Runner) CheckLocksIdle(when string) {
 	ls := txfile.VerifLockSnapshot(r.F)
 	if ls.SharedCount != 0 || ls.PendingSet || ls.ReservedHeld {
-		r.E.Fail("C09", "lock-leak", "%s, no transaction open: shared=%d pending=%v reserved=%v", when, ls.SharedCount, ls.PendingSet, ls.ReservedHeld)
+		r.fail("C09", "lock-leak", "%s, no transaction open: shared=%d pending=%v reserved=%v", when, ls.SharedCount, ls.PendingSet, ls.ReservedHeld)
 	}
 }
 
@@ -742,6 +769,7 @@ type Gen struct {
 	inTxOps int
 	txLen  int
 	NoReopen bool
+	lowSpace bool
 }
 
 func NewGen(r *Runner, rng *simsched.Rand, mix string) *Gen {
@@ -776,6 +804,13 @@ func (g *Gen) Next() Op {
 	g.inTxOps++
 	if g.inTxOps > g.txLen || r.txDirtyUnknown {
 		return g.end()
+	}
+	if r.txOOM || g.lowSpace {
+		// file (nearly) full: mostly free pages so that later transactions make progress
+		g.lowSpace = len(r.Cur().Pages) > 4
+		if rng.Intn(10) < 7 {
+			return Op{K: "free", A: rng.Intn(1 << 20)}
+		}
 	}
 	m := g.M
 	big := func() int { return rng.Intn(1 << 20) }
